@@ -222,7 +222,7 @@ func Run(cfg Config, root func()) *Result {
 			t.killed = true
 			raceDisable()
 			t.wake <- struct{}{}
-			<-s.killAck
+			s.waitKillAck(t)
 			raceEnable()
 			t.state = tsDone
 		}
@@ -248,6 +248,43 @@ func Run(cfg Config, root func()) *Result {
 var WatchdogSeconds = 60
 var WatchdogHook func(msg string)
 
+// WatchdogDumpDir, if set, receives the complete goroutine dump of a watchdog exit.
+var WatchdogDumpDir string
+
+//go:norace
+func (s *Sim) watchdogExit(msg string) {
+	if WatchdogHook != nil {
+		WatchdogHook(msg)
+	}
+	println(msg)
+	buf := make([]byte, 4<<20)
+	n := runtime.Stack(buf, true)
+	if WatchdogDumpDir != "" {
+		var st string
+		for _, t := range s.tasks {
+			st += "task " + strconv.Itoa(t.ID) + " " + t.Name + " state=" + strconv.Itoa(int(t.state)) + " killed=" + strconv.FormatBool(t.killed) + " wait=" + t.waitStr + "\n"
+		}
+		writeDump(WatchdogDumpDir, msg+"\n"+st+string(buf[:n]))
+	}
+	println(string(buf[:n]))
+	exit2()
+}
+
+// waitKillAck waits for a leftover task to acknowledge its kill; a task that does not is a
+// stuck real goroutine (machinery trouble).
+//
+//go:norace
+func (s *Sim) waitKillAck(t *Task) {
+	tm := time.NewTimer(time.Duration(WatchdogSeconds) * time.Second)
+	select {
+	case <-s.killAck:
+		tm.Stop()
+	case <-tm.C:
+		s.watchdogExit("simrt watchdog: task " + t.Name + " did not acknowledge the end of the run within " + strconv.Itoa(WatchdogSeconds) + "s (seed " +
+			strconv.FormatUint(s.cfg.Seed, 10) + ", step " + strconv.FormatInt(s.steps, 10) + ")")
+	}
+}
+
 //go:norace
 func (s *Sim) waitMain() {
 	tm := time.NewTimer(time.Duration(WatchdogSeconds) * time.Second)
@@ -257,14 +294,7 @@ func (s *Sim) waitMain() {
 	case <-tm.C:
 		msg := "simrt watchdog: run did not return within " + strconv.Itoa(WatchdogSeconds) + "s (seed " +
 			strconv.FormatUint(s.cfg.Seed, 10) + ", step " + strconv.FormatInt(s.steps, 10) + ")"
-		if WatchdogHook != nil {
-			WatchdogHook(msg)
-		}
-		println(msg)
-		buf := make([]byte, 1<<16)
-		n := runtime.Stack(buf, true)
-		println(string(buf[:n]))
-		exit2()
+		s.watchdogExit(msg)
 	}
 }
 
